@@ -60,6 +60,7 @@ fn main() {
                 "helper" => helpers::gen(&mut w, thorough, seed),
                 "exec-accepted" => exec::gen_accepted(&mut w, thorough, seed),
                 "exec-engines" => exec::gen_engines(&mut w, thorough, seed),
+                "exec-accepted-engines" => exec::gen_accepted_engines(&mut w, thorough, seed),
                 "exec-long" => exec::gen_long(&mut w, thorough, seed),
                 _ => { eprintln!("unknown suite {suite}"); std::process::exit(2); }
             }
